@@ -444,7 +444,10 @@ func cmdCheck(args []string) {
 			blName = strings.Replace(blName, nk+"#", ok+"#", 1)
 		}
 		if (ob.Unit.preStale || (ob.Unit.calleeStaleAt > 0 && ob.cmdIdx >= ob.Unit.calleeStaleAt-1) ||
-			(ob.Unit.newLoopAt > 0 && ob.cmdIdx >= ob.Unit.newLoopAt-1)) && !isKnown {
+			(ob.Unit.newLoopAt > 0 && ob.cmdIdx >= ob.Unit.newLoopAt-1) ||
+			// after a loop with a new accumulator a counterexample still counts (the append-only invariant keeps what
+			// the accumulator held; a model is a model), an inconclusive answer does not
+			(ob.Unit.newAccAt > 0 && ob.cmdIdx >= ob.Unit.newAccAt-1 && ob.Result != "sat")) && !isKnown {
 			// the unit was verified without a precondition that could not be evaluated: what fails in it is undecided
 			undecided = append(undecided, ob)
 			continue
@@ -627,6 +630,16 @@ func cmdCheck(args []string) {
 		}
 		sort.Strings(names)
 		bl[*prop] = names
+		seenA := map[string]bool{}
+		var anchors []string
+		for _, n := range e.trivialAnchors {
+			if !seenA[n] {
+				seenA[n] = true
+				anchors = append(anchors, n)
+			}
+		}
+		sort.Strings(anchors)
+		bl[*prop+"#anchors"] = anchors
 		os.MkdirAll("/verif/baseline", 0o755)
 		out, _ := json.MarshalIndent(bl, "", " ")
 		os.WriteFile("/verif/baseline/obligations.json", append(out, '\n'), 0o644)
